@@ -34,6 +34,19 @@ What is different from the other groups:
     struct.pack and its OverflowError handling) stays outside the fragment without being guessed;
   * EXTERNAL functions (`_normalize_relaxed_value`) are uninterpreted (`Py.externalValue`).
 
+Robustness against behaviour-preserving refactorings (all general, none keyed to a particular edit):
+  * HELPERS: every module-level function reachable from the targets through the call graph (found by call, not by name) is translated
+    like a target (annotations: unions of schema classes are schema objects, `int` is `Int`, `_BitReader` / `_BitWriter` results are
+    objects); a non-recursive helper gets `attribute [codec_helper]`, the simp set the bridge proofs unfold;
+  * a call that yields a fresh reader / writer may be passed directly as an object argument (it is bound to a local of its own);
+  * DESUGARING (class Desugar): comprehensions whose element changes a reader / writer, dict comprehensions, `bytes(<generator>)`
+    and `next((… for … if …), default)` are rewritten into the accumulate-in-a-loop / search-loop-with-break form before translation, so
+    both spellings give the same Lean term;
+  * CANONICAL COMPARISONS: `a > b` is emitted as `b < a`, `a >= b` as `b ≤ a`, `not (a <= b)` as `b < a`, trivially true links
+    `0 <= <non-negative>` of a chain are dropped (their operands are still evaluated);
+  * module-level constant `{int: str}` tables that are assigned once and only read: `TABLE.get(k)` is `Py.constLookup`;
+  * `", ".join(<names>)`, `{x!r}` in messages are evaluated for their effects like the rest of a message.
+
 Everything else makes the function a definition that always fails (never guess) and is reported as `py2lean: [Gen.Codec] …`.
 """
 from __future__ import annotations
@@ -88,7 +101,7 @@ LEAN_TY = {
     "nat": "Nat", "int": "Int", "bool": "Bool", "bytes": "List Nat", "str": "String", "schema": "Py.Obj", "schemalist": "List Py.Obj",
     "value": "Py.Value", "valuelist": "List Py.Value", "dict": "List (String × Py.Value)", "cast": "Py.CastMode", "none": "Unit",
     "obj:_BitReader": "Gen.ReaderS", "obj:_BitWriter": "Gen.WriterS", "range": "Int × Int", "strlist": "List String",
-    "optnat": "Option Nat", "optschema": "Option Py.Obj",
+    "optnat": "Option Nat", "optschema": "Option Py.Obj", "optstr": "Option String",
 }
 DUMMY = {
     "nat": "(0 : Nat)", "int": "(0 : Int)", "bool": "false", "bytes": "([] : List Nat)", "str": '""', "schema": "(default : Py.Obj)",
@@ -111,12 +124,15 @@ def ann_type(a: typing.Optional[ast.AST], what: str) -> str:
     s = ast.unparse(a)
     tbl = {
         "_BitReader": "obj:_BitReader", "_BitWriter": "obj:_BitWriter", "_Value": "value", "_Obj": "value", "None": "none",
-        "bool": "bool", "bytes": "bytes", "bytes | bytearray | memoryview": "bytes", "int": "nat",
+        "bool": "bool", "bytes": "bytes", "bytes | bytearray | memoryview": "bytes", "int": "int", "str": "str",
         "CompositeType": "schema", "ArrayType": "schema", "PrimitiveType | VoidType": "schema", "SerializableType": "schema",
         "typing.Any": "schema",  # every `typing.Any` parameter of the targets is a schema object (checked: see check_any_params)
     }
     if s in tbl:
         return tbl[s]
+    parts = [x.strip() for x in s.split("|")]
+    if parts and all(x in SCHEMA_CLASSES for x in parts):
+        return "schema"
     raise Untranslatable("annotation %s of %s" % (s, what))
 
 
@@ -202,6 +218,7 @@ class FTr:
         self.pre: typing.List[str] = []
         self.tmp = 0
         self.mut: typing.Set[str] = set()
+        self.last_cmp: typing.Optional[typing.Tuple[str, str, str]] = None
         self.sentinel_ok = False   # the module defines `_DEFAULT_SENTINEL = object()`
         self.opt_types: typing.Dict[str, str] = {}  # locals initialised with None -> type of their other values
         self.in_break_loop = False
@@ -246,6 +263,8 @@ class FTr:
             return self.bind("Py.optGet %s" % v)
         if t == "optschema" and want == "schema":
             return self.bind("Py.optGet %s" % v)
+        if t == "optstr" and want == "str":
+            return self.bind("Py.optGet %s" % v)
         raise Untranslatable("%s where %s is expected" % (t, want))
 
     def nat_arg(self, n: ast.AST) -> str:
@@ -276,9 +295,11 @@ class FTr:
             # a message: evaluated for its effects, the text is dropped
             for part in n.values:
                 if isinstance(part, ast.FormattedValue):
-                    if part.format_spec is not None or part.conversion != -1:
+                    if part.format_spec is not None:
                         raise Untranslatable("format specification")
-                    self.e(part.value)
+                    _, tpart = self.e(part.value)
+                    if part.conversion != -1 and tpart not in ("str", "nat", "int", "bool"):
+                        raise Untranslatable("conversion !%s of %s" % (chr(part.conversion), tpart))
                 elif not isinstance(part, ast.Constant):
                     raise Untranslatable("f-string part")
             return '""', "str"
@@ -292,6 +313,8 @@ class FTr:
             return self.attribute(n)
         if isinstance(n, ast.BinOp):
             return self.binop(n)
+        if isinstance(n, ast.UnaryOp) and isinstance(n.op, ast.Not) and isinstance(n.operand, ast.Compare):
+            return self.compare(n.operand, negate=True)
         if isinstance(n, ast.UnaryOp) and isinstance(n.op, ast.Not):
             a, ta = self.e(n.operand)
             if ta != "bool":
@@ -312,6 +335,8 @@ class FTr:
             if (isinstance(v0, ast.Call) and ast.unparse(v0.func) == "struct.unpack" and len(v0.args) == 2 and not v0.keywords
                     and isinstance(n.slice, ast.Constant) and n.slice.value == 0):
                 fmt, tf = self.e(v0.args[0])
+                if tf == "optstr":
+                    fmt, tf = self.bind("Py.optGet %s" % fmt), "str"
                 b, tb = self.e(v0.args[1])
                 if tf != "str" or tb != "bytes":
                     raise Untranslatable("struct.unpack on %s, %s" % (tf, tb))
@@ -340,7 +365,7 @@ class FTr:
             raise Untranslatable("dict display")
         if isinstance(n, ast.List) and not n.elts:
             return "([] : List Py.Value)", "valuelist"
-        if isinstance(n, (ast.ListComp, ast.SetComp)):
+        if isinstance(n, (ast.ListComp, ast.SetComp, ast.GeneratorExp)):
             return self.comprehension(n)
         if isinstance(n, ast.Call):
             return self.call(n)
@@ -437,7 +462,19 @@ class FTr:
                 return self.bind("Py.%s %s %s" % ("floordiv" if isinstance(n.op, ast.FloorDiv) else "mod", a, b)), "nat"
         raise Untranslatable("operator %s on %s, %s" % (type(n.op).__name__, ta, tb))
 
-    def compare(self, n: ast.Compare) -> typing.Tuple[str, str]:
+    def compare(self, n: ast.Compare, negate: bool = False) -> typing.Tuple[str, str]:
+        """Comparisons are emitted in a canonical form: `<` / `≤` only (`a > b` is `b < a`), trivially true links of a chain
+        (`0 <= <non-negative>`) dropped, a negated integer comparison as the complementary comparison."""
+        self.last_cmp = None
+        v, t = self.compare0(n)
+        if not negate:
+            return v, t
+        if self.last_cmp is not None:  # a single integer comparison l < r / l ≤ r: its complement (a total order)
+            l, sym, r = self.last_cmp
+            return "decide (%s %s %s)" % (r, "≤" if sym == "<" else "<", l), t
+        return "(!%s)" % v, t
+
+    def compare0(self, n: ast.Compare) -> typing.Tuple[str, str]:
         parts = []
         # -float("inf") < x < float("inf")
         if (len(n.ops) == 2 and all(isinstance(o, ast.Lt) for o in n.ops) and ast.unparse(n.left) == "-float('inf')"
@@ -450,7 +487,7 @@ class FTr:
             x, tx = self.e(n.left)
             c = n.comparators[0]
             neg = isinstance(n.ops[0], ast.IsNot)
-            if isinstance(c, ast.Constant) and c.value is None and tx in ("optnat", "optschema"):
+            if isinstance(c, ast.Constant) and c.value is None and tx in ("optnat", "optschema", "optstr"):
                 return "(%s).%s" % (x, "isSome" if neg else "isNone"), "bool"
             if isinstance(c, ast.Name) and c.id == "_DEFAULT_SENTINEL" and self.sentinel_ok and tx == "value":
                 t = "(Py.Value.isSentinel %s)" % x
@@ -464,6 +501,7 @@ class FTr:
                 return ("(!%s)" % t if isinstance(n.ops[0], ast.NotIn) else t), "bool"
             raise Untranslatable("membership test of %s in %s" % (tx, tc))
         left, tl = self.e(n.left)
+        cmps: typing.List[typing.Tuple[str, str, str]] = []
         always = True  # every comparison so far is trivially true: the next operand is evaluated in any case
         for op, c in zip(n.ops, n.comparators):
             before = len(self.pre)
@@ -476,14 +514,28 @@ class FTr:
             if tl in ("nat", "int") and tr in ("nat", "int"):
                 if tl != tr:
                     left, r = self.coerce(left, tl, "int"), self.coerce(r, tr, "int")
-                parts.append("(%s %s %s)" % (left, sym, r) if sym in ("==", "!=") else "decide (%s %s %s)" % (left, sym, r))
-                always = always and sym == "≤" and left == "(0 : Nat)" and tr == "nat"
+                trivial = sym == "≤" and left == "(0 : Nat)" and tr == "nat"
+                if sym in ("==", "!="):
+                    parts.append("(%s %s %s)" % (left, sym, r))
+                elif trivial:
+                    pass  # 0 <= <non-negative>: always true, the operands have been evaluated above
+                elif sym in ("<", "≤"):
+                    parts.append("decide (%s %s %s)" % (left, sym, r))
+                    cmps.append((left, sym, r))
+                else:
+                    parts.append("decide (%s %s %s)" % (r, "<" if sym == ">" else "≤", left))
+                    cmps.append((r, "<" if sym == ">" else "≤", left))
+                always = always and trivial
             elif tl == tr and tl in ("str", "cast", "bool") and sym in ("==", "!="):
                 parts.append("(%s %s %s)" % (left, sym, r))
                 always = False
             else:
                 raise Untranslatable("comparison of %s and %s" % (tl, tr))
             left, tl = r, tr
+        if len(parts) == 1 and len(cmps) == 1:
+            self.last_cmp = cmps[0]
+        if not parts:
+            return "true", "bool"
         return ("(" + " && ".join(parts) + ")" if len(parts) > 1 else parts[0]), "bool"
 
     def call(self, n: ast.Call) -> typing.Tuple[str, str]:
@@ -491,7 +543,7 @@ class FTr:
         fs = ast.unparse(f)
         if isinstance(f, ast.Name) and f.id in self.fns:
             return self.target_call(self.fns[f.id], n)
-        if isinstance(f, ast.Name) and f.id in TARGETS:
+        if isinstance(f, ast.Name) and f.id in DYN_TARGETS:
             raise Untranslatable("call of %s, which could not be analysed" % f.id)
         if n.keywords:
             raise Untranslatable("keyword arguments in %s" % fs)
@@ -596,6 +648,15 @@ class FTr:
                 if tb != "bytes":
                     raise Untranslatable("decode on %s" % tb)
                 return self.bind("Py.decodeUtf8 %s" % b), "value"
+            if f.attr == "join" and isinstance(f.value, ast.Constant) and isinstance(f.value.value, str) and len(n.args) == 1:
+                lst, tl = self.e(n.args[0])
+                if tl != "strlist":
+                    raise Untranslatable("join of %s" % tl)
+                return "(String.intercalate %s %s)" % (lean_str(f.value.value), lst), "str"
+            if (isinstance(f.value, ast.Name) and f.value.id in CONST_TABLES and f.value.id not in self.types and f.attr == "get"
+                    and len(n.args) == 1):
+                k = self.nat_arg(n.args[0])
+                return "(Py.constLookup %s %s)" % (CONST_TABLES[f.value.id], k), "optstr"
             if isinstance(f.value, ast.Name) and is_obj(self.types.get(f.value.id, "")):
                 return self.method_call(f.value.id, f.attr, n.args)
             if isinstance(f.value, ast.Name) and self.types.get(f.value.id) == "value":
@@ -712,6 +773,18 @@ class FTr:
             src = given.get(p, defaults.get(p))
             if src is None:
                 raise Untranslatable("missing argument %s of %s" % (p, fi.name))
+            if is_obj(pt) and not isinstance(src, ast.Name):
+                # the result of a call that yields a fresh object: bound to a local of its own
+                v, t = self.e(src)
+                if t != pt:
+                    raise Untranslatable("argument %s of %s must be a %s" % (p, fi.name, pt[4:]))
+                tmpn = "obj%d" % (len(self.types) + self.tmp)
+                while tmpn in self.types:
+                    tmpn += "x"
+                self.pre.append("let mut %s := %s" % (tmpn, v))
+                self.types[tmpn] = pt
+                self.mut.add(tmpn)
+                src = ast.Name(id=tmpn, ctx=ast.Load())
             if is_obj(pt):
                 if not isinstance(src, ast.Name) or self.types.get(src.id) != pt:
                     raise Untranslatable("argument %s of %s must be a local %s" % (p, fi.name, pt[4:]))
@@ -744,7 +817,7 @@ class FTr:
             self.pre.append("%s := %s" % (lname(var), s))
         return (outs[0] if outs else "()"), fi.ret
 
-    def comprehension(self, n: typing.Union[ast.ListComp, ast.SetComp]) -> typing.Tuple[str, str]:
+    def comprehension(self, n: typing.Union[ast.ListComp, ast.SetComp, ast.GeneratorExp]) -> typing.Tuple[str, str]:
         """[E for x in L] / {E for x in L} over a list of schema objects or a range; E may raise (-> mapM)"""
         if len(n.generators) != 1 or n.generators[0].ifs or n.generators[0].is_async or not isinstance(n.generators[0].target, ast.Name):
             raise Untranslatable("comprehension shape")
@@ -777,7 +850,7 @@ class FTr:
         for n in ast.walk(s):
             if isinstance(n, ast.Name) and is_obj(self.types.get(n.id, "")):
                 return True
-            if isinstance(n, ast.Call) and isinstance(n.func, ast.Name) and (n.func.id in TARGETS or n.func.id in EXTERNAL):
+            if isinstance(n, ast.Call) and isinstance(n.func, ast.Name) and (n.func.id in DYN_TARGETS or n.func.id in EXTERNAL):
                 return True
             if isinstance(n, (ast.Return, ast.Break, ast.Continue, ast.Global, ast.Nonlocal, ast.Yield, ast.YieldFrom, ast.Await)):
                 return True
@@ -1257,6 +1330,8 @@ def analyse_mutation(fns: typing.Dict[str, FnInfo], classes: typing.Dict[str, Cl
 
 
 OPAQUE_KEYS: typing.List[str] = []
+CONST_TABLES: typing.Dict[str, str] = {}   # module-level constant {int: str} mappings (name -> Lean association list)
+DYN_TARGETS: typing.List[str] = []         # TARGETS + the private helpers found through the call graph
 SENTINEL_OK = [False]
 SRC_LINES: typing.List[typing.List[str]] = [[]]
 
@@ -1290,6 +1365,129 @@ def infer_optional(fn: ast.FunctionDef) -> typing.Dict[str, str]:
         if len(tys) == 1 and None not in tys:
             out[v] = tys.pop()  # type: ignore[assignment]
     return out
+
+
+class Desugar(ast.NodeTransformer):
+    """Source-level normalisation (behaviour preserving, applied to every target before it is analysed) so that equivalent
+    spellings yield the same Lean term:
+
+      * `x = [E for T in IT]` / `x = {K: V for T in IT}` / `return <such a comprehension>` / `x = bytes(E for T in IT)` whose element
+        calls a translated function or a method of a reader / writer object  ->  the accumulate-in-a-loop form
+        (`x = []` + `for T in IT: x.append(E)`, `x = {}` + `x[K] = V`, `x = bytearray()` + `x.append(E)`); comprehensions without such
+        calls stay expressions (`mapM`);
+      * `x = next((E for T in IT if C), D)`  ->  `x = D` + `for T in IT: if C: x = E; break`.
+
+    The loop variables of a comprehension become function-level locals; the translator rejects the function when they clash with
+    another local, so the different scoping cannot change the meaning silently."""
+
+    def __init__(self, stateful: typing.Callable[[ast.AST], bool]):
+        self.stateful = stateful
+        self.n = 0
+
+    def fresh(self) -> str:
+        self.n += 1
+        return "comp%d" % self.n
+
+    @staticmethod
+    def simple_gen(c: ast.AST) -> typing.Optional[ast.comprehension]:
+        gens = getattr(c, "generators", None)
+        if gens is None or len(gens) != 1 or gens[0].is_async:
+            return None
+        return gens[0]
+
+    def loop(self, at: ast.AST, g: ast.comprehension, body: typing.List[ast.stmt]) -> ast.For:
+        for cond in reversed(g.ifs):
+            body = [ast.If(test=cond, body=body, orelse=[])]
+        return ast.For(target=g.target, iter=g.iter, body=body, orelse=[], type_comment=None)
+
+    def expand(self, name: str, value: ast.AST, at: ast.stmt) -> typing.Optional[typing.List[ast.stmt]]:
+        """statements equivalent to `name = value`, or None when `value` is not one of the forms above"""
+        def nm(ctx):
+            return ast.Name(id=name, ctx=ctx)
+        out: typing.Optional[typing.List[ast.stmt]] = None
+        if isinstance(value, ast.ListComp):
+            g = self.simple_gen(value)
+            if g is not None and not g.ifs and self.stateful(value.elt):
+                app = ast.Expr(ast.Call(func=ast.Attribute(value=nm(ast.Load()), attr="append", ctx=ast.Load()), args=[value.elt], keywords=[]))
+                out = [ast.Assign(targets=[nm(ast.Store())], value=ast.List(elts=[], ctx=ast.Load())), self.loop(at, g, [app])]
+        elif isinstance(value, ast.DictComp):
+            g = self.simple_gen(value)
+            if g is not None and not g.ifs:
+                st = ast.Assign(targets=[ast.Subscript(value=nm(ast.Load()), slice=value.key, ctx=ast.Store())], value=value.value)
+                out = [ast.Assign(targets=[nm(ast.Store())], value=ast.Dict(keys=[], values=[])), self.loop(at, g, [st])]
+        elif (isinstance(value, ast.Call) and isinstance(value.func, ast.Name) and value.func.id == "bytes" and len(value.args) == 1
+              and not value.keywords and isinstance(value.args[0], ast.GeneratorExp)):
+            ge = value.args[0]
+            g = self.simple_gen(ge)
+            if g is not None and not g.ifs and self.stateful(ge.elt):
+                app = ast.Expr(ast.Call(func=ast.Attribute(value=nm(ast.Load()), attr="append", ctx=ast.Load()), args=[ge.elt], keywords=[]))
+                out = [ast.Assign(targets=[nm(ast.Store())], value=ast.Call(func=ast.Name(id="bytearray", ctx=ast.Load()), args=[], keywords=[])),
+                       self.loop(at, g, [app])]
+        elif (isinstance(value, ast.Call) and isinstance(value.func, ast.Name) and value.func.id == "next" and len(value.args) == 2
+              and not value.keywords and isinstance(value.args[0], ast.GeneratorExp)):
+            ge = value.args[0]
+            g = self.simple_gen(ge)
+            if g is not None:
+                hit = [ast.Assign(targets=[nm(ast.Store())], value=ge.elt), ast.Break()]
+                out = [ast.Assign(targets=[nm(ast.Store())], value=value.args[1]), self.loop(at, g, hit)]
+        if out is None:
+            return None
+        for st in out:
+            ast.copy_location(st, at)
+            for sub in ast.walk(st):
+                if not hasattr(sub, "lineno"):
+                    ast.copy_location(sub, at)
+            ast.fix_missing_locations(st)
+        return out
+
+    def block(self, body: typing.List[ast.stmt]) -> typing.List[ast.stmt]:
+        out: typing.List[ast.stmt] = []
+        for st in body:
+            st = self.generic_visit(st)
+            done = None
+            if isinstance(st, ast.Assign) and len(st.targets) == 1 and isinstance(st.targets[0], ast.Name):
+                done = self.expand(st.targets[0].id, st.value, st)
+            elif isinstance(st, ast.Return) and st.value is not None:
+                tmp = self.fresh()
+                inner = st.value
+                wrap = None
+                if isinstance(inner, ast.Call) and ast.unparse(inner.func) == "typing.cast" and len(inner.args) == 2:
+                    wrap, inner = inner, inner.args[1]
+                done = self.expand(tmp, inner, st)
+                if done is not None:
+                    ret = ast.Return(value=ast.Name(id=tmp, ctx=ast.Load()))
+                    ast.copy_location(ret, st)
+                    ast.fix_missing_locations(ret)
+                    done.append(ret)
+            out.extend(done if done is not None else [st])
+        return out
+
+    def generic_visit(self, node):  # type: ignore[override]
+        for field in ("body", "orelse", "finalbody"):
+            v = getattr(node, field, None)
+            if isinstance(v, list) and v and isinstance(v[0], ast.stmt):
+                setattr(node, field, self.block(v))
+        return node
+
+
+def desugar_function(fn: ast.FunctionDef, target_names: typing.Set[str]) -> ast.FunctionDef:
+    obj_params = {a.arg for a in list(fn.args.args) + list(fn.args.kwonlyargs)
+                  if a.annotation is not None and ast.unparse(a.annotation) in ("_BitReader", "_BitWriter")}
+
+    def stateful(e: ast.AST) -> bool:
+        """the expression calls a method of a reader / writer, or passes one to a translated function: it cannot be an expression"""
+        for n in ast.walk(e):
+            if isinstance(n, ast.Call):
+                if (isinstance(n.func, ast.Name) and n.func.id in target_names
+                        and any(isinstance(a, ast.Name) and a.id in obj_params for a in list(n.args) + [k.value for k in n.keywords])):
+                    return True
+                if isinstance(n.func, ast.Attribute) and isinstance(n.func.value, ast.Name) and n.func.value.id in obj_params:
+                    return True
+        return False
+
+    d = Desugar(stateful)
+    fn.body = d.block(fn.body)
+    return fn
 
 
 def translate_fn(fns: typing.Dict[str, FnInfo], classes: typing.Dict[str, ClassInfo], fi: FnInfo) -> typing.List[str]:
@@ -1392,19 +1590,49 @@ def translate_codec(repo: Path) -> typing.Tuple[str, typing.List[str]]:
         node = cnodes.get(ename)
         if node is None or [ast.unparse(b) for b in node.bases] != ["SerDesError"]:
             problems.append("%s: %s is not a direct subclass of SerDesError" % (SOURCE, ename))
+    # private helpers: module-level functions reachable from the targets through the call graph (by call, not by name)
+    del DYN_TARGETS[:]
+    DYN_TARGETS.extend(TARGETS)
+    work = [t for t in TARGETS if t in fnodes]
+    while work:
+        cur = work.pop()
+        for n in ast.walk(fnodes[cur]):
+            if (isinstance(n, ast.Call) and isinstance(n.func, ast.Name) and n.func.id in fnodes and n.func.id not in DYN_TARGETS
+                    and n.func.id not in EXTERNAL):
+                DYN_TARGETS.append(n.func.id)
+                work.append(n.func.id)
+    # module-level constant tables {int: str}, assigned once and only ever read
+    CONST_TABLES.clear()
+    for st in tree.body:
+        tgt = st.targets[0] if isinstance(st, ast.Assign) and len(st.targets) == 1 else st.target if isinstance(st, ast.AnnAssign) else None
+        val = getattr(st, "value", None)
+        if (isinstance(tgt, ast.Name) and isinstance(val, ast.Dict) and val.keys
+                and all(isinstance(k, ast.Constant) and isinstance(k.value, int) and not isinstance(k.value, bool) and k.value >= 0 for k in val.keys)
+                and all(isinstance(v, ast.Constant) and isinstance(v.value, str) for v in val.values)):
+            uses = [n for n in ast.walk(tree) if isinstance(n, ast.Name) and n.id == tgt.id]
+            stores = [n for n in uses if isinstance(n.ctx, (ast.Store, ast.Del))]
+            parents_ok = True
+            for n in ast.walk(tree):
+                for child in ast.iter_child_nodes(n):
+                    if isinstance(child, ast.Name) and child.id == tgt.id and isinstance(child.ctx, ast.Load):
+                        if not (isinstance(n, ast.Attribute) and n.attr == "get") and not (isinstance(n, ast.Subscript) and isinstance(n.ctx, ast.Load)):
+                            parents_ok = False
+            if len(stores) == 1 and parents_ok:
+                CONST_TABLES[tgt.id] = "[%s]" % ", ".join("((%d : Nat), %s)" % (k.value, lean_str(v.value)) for k, v in zip(val.keys, val.values))
     fns: typing.Dict[str, FnInfo] = {}
     failed: typing.Dict[str, str] = {}
-    for name in TARGETS:
+    for name in DYN_TARGETS:
         node = fnodes.get(name)
         if node is None:
             failed[name] = "not found"
             continue
         try:
+            fnodes[name] = node = desugar_function(node, set(DYN_TARGETS))
             fns[name] = FnInfo(node)
         except Untranslatable as ex:
             failed[name] = str(ex)
     for fi in fns.values():
-        fi.calls = called_targets(fi.node, TARGETS)
+        fi.calls = called_targets(fi.node, DYN_TARGETS)
     graph = {name: {c for c in fi.calls if c in fns} for name, fi in fns.items()}
     comps = sccs(graph)
     for comp in comps:
@@ -1447,4 +1675,6 @@ def translate_codec(repo: Path) -> typing.Tuple[str, typing.List[str]]:
                 out += wrapper(fns[name]) + [""]
         else:
             out += texts[0] + [""]
+            if comp[0] not in TARGETS:
+                out += ["attribute [codec_helper] %s" % lean_fn(comp[0]), ""]
     return "\n".join(out) + "\n", problems
